@@ -394,22 +394,22 @@ func genC12(w *bufio.Writer, rng *hx.Rng, tier string) {
 
 	// ===== 1. exhaustive small scopes over each format's delimiter alphabet =====
 	// CRI: bare strings, and tails after a complete "time stream " head
-	exhaustive([]string{" ", "P", "a", "\n"}, pick(6, 8), func(s []byte) { c12CRI(w, s) })
+	exhaustive([]string{" ", "P", "a", "\n"}, pick(7, 8), func(s []byte) { c12CRI(w, s) })
 	exhaustive([]string{" ", "P", "F", "\n", "x"}, pick(4, 6), func(s []byte) {
 		c12CRI(w, append([]byte("t stdout "), s...))
 	})
 	exhaustive([]string{" ", "abcdef", "P"}, pick(5, 7), func(s []byte) { c12CRI(w, s) })
 	// Postgres: bare strings and tails after the three timestamp words
 	exhaustive([]string{" ", "[", "]", "=", ",", "a"}, pick(5, 6), func(s []byte) { c12PG(w, s) })
-	exhaustive([]string{" ", "[", "]", "=", ",", "a"}, pick(5, 7), func(s []byte) {
+	exhaustive([]string{" ", "[", "]", "=", ",", "a"}, pick(6, 7), func(s []byte) {
 		c12PG(w, append([]byte("a b c "), s...))
 	})
-	exhaustive([]string{" ", "=", ",", "a"}, pick(7, 9), func(s []byte) {
+	exhaustive([]string{" ", "=", ",", "a"}, pick(8, 9), func(s []byte) {
 		c12PG(w, append([]byte("a b c [1] [2] "), s...))
 	})
 	// nginx
 	exhaustive([]string{" ", "[", "#", ":", "*", "a", "\n"}, pick(5, 6), func(s []byte) { c12Nginx(w, len(s)%2 == 0, s) })
-	exhaustive([]string{" ", "#", ":", "*", "1", ", "}, pick(5, 7), func(s []byte) {
+	exhaustive([]string{" ", "#", ":", "*", "1", ", "}, pick(6, 7), func(s []byte) {
 		c12Nginx(w, true, append([]byte("2022/08/17 10:49:27 [error] "), s...))
 	})
 	exhaustive([]string{", ", "k", ":", " ", "\"", ",", "é"}, pick(5, 6), func(s []byte) {
@@ -420,10 +420,10 @@ func genC12(w *bufio.Writer, rng *hx.Rng, tier string) {
 		c12Syslog(w, false, false, false, s)
 		c12Syslog(w, true, false, true, s)
 	})
-	exhaustive([]string{" ", "[", "]", ":", "a"}, pick(6, 8), func(s []byte) {
+	exhaustive([]string{" ", "[", "]", ":", "a"}, pick(7, 8), func(s []byte) {
 		c12Syslog(w, false, len(s)%2 == 0, false, append([]byte("<34>Oct 11 22:14:15 "), s...))
 	})
-	exhaustive([]string{" ", "-", "a", "1"}, pick(7, 9), func(s []byte) {
+	exhaustive([]string{" ", "-", "a", "1"}, pick(8, 9), func(s []byte) {
 		c12Syslog(w, true, false, false, append([]byte("<34>"), s...))
 	})
 	exhaustive([]string{"[", "]", " ", "\"", "=", "\\", "a", "-"}, pick(5, 6), func(s []byte) {
@@ -439,7 +439,7 @@ func genC12(w *bufio.Writer, rng *hx.Rng, tier string) {
 	// CSV
 	csvDef := csvCfg{delim: ','}
 	exhaustive([]string{",", "\"", "a", "\n", "\r", " "}, pick(6, 7), func(s []byte) { c12CSV(w, csvDef, s) })
-	exhaustive([]string{";", "\"", "a", "\n"}, pick(6, 8), func(s []byte) {
+	exhaustive([]string{";", "\"", "a", "\n"}, pick(7, 8), func(s []byte) {
 		c12CSV(w, csvCfg{delim: ';', cols: []string{"x", "y"}, prefix: "c_", cont: len(s)%2 == 0}, s)
 	})
 	// json_max_fields_size: every string body over escape tokens × every limit
@@ -467,7 +467,7 @@ func genC12(w *bufio.Writer, rng *hx.Rng, tier string) {
 	exhaustive([]string{"a", "\n", "\r"}, pick(5, 7), func(s []byte) { c12Raw(w, s) })
 
 	// ===== 2. structured, mostly valid lines; 3. malformed stream =====
-	n := pick(2500, 60000)
+	n := pick(6000, 60000)
 	for i := 0; i < n; i++ {
 		l := criLine(rng)
 		c12CRI(w, withNL(rng, l))
